@@ -11,7 +11,6 @@ import (
 	"math"
 	"net/url"
 	"strings"
-	"time"
 
 	"github.com/Dash-Industry-Forum/livesim2/pkg/drm"
 	"github.com/Dash-Industry-Forum/livesim2/pkg/scte35"
@@ -330,16 +329,18 @@ func LiveMPD(a *asset, mpdName string, cfg *ResponseConfig, drmCfg *drm.DrmConfi
 	}
 
 	// Split into multiple periods
-	err = splitPeriod(mpd, a, cfg, wTimes)
+	periodsChangeMS, err := splitPeriod(mpd, a, cfg, wTimes)
 	if err != nil {
 		return nil, fmt.Errorf("splitPeriods: %w", err)
 	}
 
-	if cfg.liveMPDType() == segmentNumber {
-		mpd.PublishTime, err = lastPeriodStartTime(mpd)
-		if err != nil {
-			return nil, fmt.Errorf("lastPeriodStartTime: %w", err)
-		}
+	// The MPD does not only change with the segment lists, but also when a Period is added or removed.
+	segmentsChangeS, err := mpd.PublishTime.ConvertToSeconds()
+	if err != nil {
+		return nil, fmt.Errorf("publishTime: %w", err)
+	}
+	if periodsChangeMS > int(math.Round(segmentsChangeS*1000)) {
+		mpd.PublishTime = m.ConvertToDateTimeMS(int64(periodsChangeMS))
 	}
 
 	if afterStop {
@@ -351,18 +352,6 @@ func LiveMPD(a *asset, mpdName string, cfg *ResponseConfig, drmCfg *drm.DrmConfi
 	addPatchLocation(mpd, cfg)
 
 	return mpd, nil
-}
-
-// lastPeriodStartTime returns the absolute startTime of the last Period.
-func lastPeriodStartTime(mpd *m.MPD) (m.DateTime, error) {
-	lastPeriod := mpd.Periods[len(mpd.Periods)-1]
-	lastRelStartS := time.Duration(*lastPeriod.Start).Seconds()
-	ast, err := mpd.AvailabilityStartTime.ConvertToSeconds()
-	if err != nil {
-		return "", err
-	}
-	lastAbsStart := ast + lastRelStartS
-	return m.ConvertToDateTime(lastAbsStart), nil
 }
 
 func addPatchLocation(mpd *m.MPD, cfg *ResponseConfig) {
@@ -390,12 +379,13 @@ func makeMPDStatic(mpd *m.MPD, mpdDurS int) {
 
 // splitPeriod splits the single-period MPD into multiple periods given cfg.PeriodsPerHour
 // continuity is signalled if configured.
-func splitPeriod(mpd *m.MPD, a *asset, cfg *ResponseConfig, wTimes wrapTimes) error {
+// It returns the time at which the list of periods last changed (for publishTime).
+func splitPeriod(mpd *m.MPD, a *asset, cfg *ResponseConfig, wTimes wrapTimes) (lastChangeMS int, err error) {
 	if len(mpd.Periods) != 1 {
-		return fmt.Errorf("not exactly one period in the MPD")
+		return 0, fmt.Errorf("not exactly one period in the MPD")
 	}
 	if cfg.PeriodsPerHour == nil {
-		return nil
+		return 0, nil
 	}
 	periodDur := 3600 / *cfg.PeriodsPerHour
 	// Periods must start on segment boundaries of the reference representation.
@@ -405,11 +395,10 @@ func splitPeriod(mpd *m.MPD, a *asset, cfg *ResponseConfig, wTimes wrapTimes) er
 		refSegDurMS = int(math.Round(float64(a.refRep.duration()) * 1000 / float64(a.refRep.MediaTimescale*len(a.refRep.Segments))))
 	}
 	if periodDur*1000%refSegDurMS != 0 {
-		return fmt.Errorf("period duration %ds not a multiple of segment duration %dms", periodDur, refSegDurMS)
+		return 0, fmt.Errorf("period duration %ds not a multiple of segment duration %dms", periodDur, refSegDurMS)
 	}
 
-	startPeriodNr := wTimes.startTimeMS / (periodDur * 1000)
-	endPeriodNr := wTimes.nowMS / (periodDur * 1000)
+	startPeriodNr, endPeriodNr, lastChangeMS := listedPeriods(cfg, wTimes, periodDur*1000)
 	inPeriod := mpd.Periods[0]
 	// Every period gets its own part of the timelines, so take them out before the period is cloned.
 	// Otherwise the complete timelines are copied for every period (quadratic in the timeShiftBufferDepth).
@@ -452,7 +441,7 @@ func splitPeriod(mpd *m.MPD, a *asset, cfg *ResponseConfig, wTimes wrapTimes) er
 				periodStart, periodEnd := uint64(pNr*periodDur), uint64((pNr+1)*periodDur)
 				as.SegmentTemplate.SegmentTimeline.S, as.SegmentTemplate.StartNumber = reduceS(inS, startNr, timeScale, periodStart, periodEnd)
 			default:
-				return fmt.Errorf("unknown mpd type")
+				return 0, fmt.Errorf("unknown mpd type")
 			}
 			if cfg.ContMultiPeriodFlag {
 				periodContinuity := m.DescriptorType{
@@ -468,7 +457,29 @@ func splitPeriod(mpd *m.MPD, a *asset, cfg *ResponseConfig, wTimes wrapTimes) er
 	for _, p := range periods {
 		mpd.AppendPeriod(p)
 	}
-	return nil
+	return lastChangeMS, nil
+}
+
+// listedPeriods returns the numbers of the first and the last period in the MPD: the periods that
+// contain the start of the time-shift window and now, respectively.
+// lastChangeMS is the latest time at which that range changed: either the last period was added,
+// or the period before the first one was removed since the start of the time-shift window left it.
+func listedPeriods(cfg *ResponseConfig, wTimes wrapTimes, periodDurMS int) (firstNr, lastNr, lastChangeMS int) {
+	firstNr = wTimes.startTimeMS / periodDurMS
+	lastNr = wTimes.nowMS / periodDurMS
+	streamStartMS := cfg.StartTimeS * 1000
+	lastChangeMS = streamStartMS
+	if addedMS := lastNr * periodDurMS; addedMS > lastChangeMS {
+		lastChangeMS = addedMS
+	}
+	if firstStartMS := firstNr * periodDurMS; firstStartMS > streamStartMS {
+		// An earlier period has been listed. The window start is not clamped to the stream start here.
+		timeShiftBufferDepthMS := wTimes.nowMS - wTimes.startTimeMS
+		if removedMS := firstStartMS + timeShiftBufferDepthMS; removedMS > lastChangeMS {
+			lastChangeMS = removedMS
+		}
+	}
+	return firstNr, lastNr, lastChangeMS
 }
 
 func reduceS(entries []*m.S, startNr *uint32, timescale int, periodStartS, periodEndS uint64) ([]*m.S, *uint32) {
